@@ -615,6 +615,19 @@ def abivals_int():
     return abivals.INT
 
 
+def simpler_scenarios(kind, nm, spec):
+    """scenarios of the same kind that are simpler than (nm, spec), simplest first"""
+    if kind == "import":
+        names = list(IMPORT_SCHEDULES)
+        return [(n, IMPORT_SCHEDULES[n]) for n in names[:names.index(nm)]] if nm in names else []
+    plan, ca = spec
+    if any(not isinstance(st, str) for st in plan):
+        return []
+    cands = [("finish", ([], None)), ("yield", (["y"], None)), ("yield+cancel", (["y"], 0))]
+    size = lambda sp: (len(sp[0]), sp[1] is not None)
+    return [(n, sp) for n, sp in cands if size(sp) < size((plan, ca))]
+
+
 def shrink_values(run_fn, m, vals, ret, cls):
     """greedy: replace each argument (and the result) by its simplest value while the same class still fails"""
     vals = list(vals)
@@ -774,7 +787,7 @@ def run(c):
         corpus, known = [], []       # a replay run runs the recorded witness only
     for variant, wit in corpus:
         cases.append((variant, wit, "corpus", base))
-    n_seeded = 0 if replaying else int(os.environ.get("VERIF_C08_SEEDED", 13 if quick else 96))
+    n_seeded = 0 if replaying else int(os.environ.get("VERIF_C08_SEEDED", 60 if quick else 400))
     for _ in range(n_seeded):
         cfg = bc.config_str("owning", c.rng.randint(0, 1), c.rng.randint(0, 1), c.rng.choice(["btree", "hash"]), c.rng.randint(0, 1))
         cases.append((c.rng.choice(VARIANTS), gen_case(c.rng, features, stats), "seeded", cfg))
@@ -783,7 +796,7 @@ def run(c):
         # header: `<variant>;<config>`
         variant, _, cfg = hdr.partition(";")
         cases.append((variant.strip(), wit, "known", cfg.strip() or base))
-    per_import = 3 if quick else 6
+    per_import = 4 if quick else 7
     # items: 2k = sync twin, 2k+1 = async variant
     items, meta = [], []
     for k, (variant, wit, origin, cfg) in enumerate(cases):
@@ -838,6 +851,7 @@ def run(c):
         batch, dropped = build_batch(c, name, chunk, emitter, target=ASYNC_TARGET + f"-{slot}")
         return b0, b1, batch, dropped, round(time.time() - t0, 1)
 
+    prune_mine(12)            # directories of earlier runs (this run's batches are all needed until it ends)
     tb = time.time()
     from queue import Queue
     slotq = Queue()
@@ -853,7 +867,6 @@ def run(c):
         built = list(ex.map(build_with_slot, chunks))
     cov["timing"]["build_all_s"] = round(time.time() - tb, 1)
     cov["timing"]["batch_build_s"] = [x[4] for x in built]
-    prune_mine(16 if quick else 30)
     ncompiled, ndropped = 0, 0
 
     # ------------------------------------------------------------ run
@@ -964,7 +977,11 @@ def run(c):
                         if ma["dir"] == "import" and isinstance(rw.get("schedule"), dict) and "s0" in rw["schedule"]:
                             scen.insert(0, ("import", nm, rw["schedule"]))
                         elif ma["dir"] == "export":
-                            scen = [s_ for s_ in scen if s_[1].split(":")[0] == nm.split(":")[0]] + scen
+                            sc_ = rw.get("schedule") or {}
+                            if isinstance(sc_, dict) and all(st == "y" for st in sc_.get("plan", ["call"])):
+                                scen.insert(0, ("export", nm, (list(sc_.get("plan", [])), sc_.get("cancel_at"))))
+                            else:
+                                scen = [s_ for s_ in scen if s_[1].split(":")[0] == nm.split(":")[0]] + scen
                     known_classes = {kf["class"] for kf in c.known_findings()}
                     for kind, nm, spec in scen:
                         c.evaluations += 1
@@ -985,6 +1002,13 @@ def run(c):
                             tok_req.append(f"yields={len(spec[0])} cancel_at={ca}")
                             tok_impl.append(o["tokens"])
                             tok_model.append(hproc.rq(f"predict|{len(spec[0])}|{'-' if ca is None else ca}") or "m_c08 died")
+                        elif kind == "export" and "error" not in o and len(spec[0]) == 1 and len(o.get("subcalls", [])) == 1 and not o.get("forced_cancel"):
+                            sc_ = o["subcalls"][0]["sched"]
+                            ca = spec[1]
+                            evs_ = ",".join(str(x) for x in sc_.get("events", [])) or "-"
+                            tok_req.append(f"await-import s0={sc_['s0']} events={evs_} cancel_at={ca}")
+                            tok_impl.append(o["tokens"])
+                            tok_model.append(hproc.rq(f"predict2|{sc_['s0']}|{evs_}|{'-' if ca is None else ca}") or "m_c08 died")
                         svals, sret, shrunk = vals, ret, False
                         new = [f for f in fs if f[0] not in known_classes]
                         if new and shrinks_left[0] > 0 and not any(isinstance(st, tuple) for st in (spec[0] if kind == "export" else [])):
@@ -992,16 +1016,30 @@ def run(c):
                             shrinks_left[0] -= 1
                             cls0 = new[0][0]
 
-                            def classes(v2, r2):
-                                o2 = run_scenario(c, runner, kind, ma, v2, r2, spec, handle)
+                            def classes_at(nm2, spec2, v2, r2):
+                                o2 = run_scenario(c, runner, kind, ma, v2, r2, spec2, handle)
                                 return {f[0] for f in scenario_findings(kind, ma, o2, run_sync(v2, r2), async_imports)}
-                            svals, sret = shrink_values(classes, ma, vals, ret, cls0)
-                            shrunk = (svals, sret) != (vals, ret)
+                            snm, sspec = nm, spec
+                            for nm2, spec2 in simpler_scenarios(kind, nm, spec):
+                                if cls0 in classes_at(nm2, spec2, vals, ret):
+                                    snm, sspec = nm2, spec2
+                                    break
+                            svals, sret = shrink_values(lambda v2, r2: classes_at(snm, sspec, v2, r2), ma, vals, ret, cls0)
+                            shrunk = (svals, sret, snm) != (vals, ret, nm)
+                            det3 = None
+                            if shrunk:
+                                # the details (tokens, blocks, values) of the shrunk input, from one more run of it
+                                o3 = run_scenario(c, runner, kind, ma, svals, sret, sspec, handle)
+                                det3 = next((d3 for c3, _, d3 in scenario_findings(kind, ma, o3, run_sync(svals, sret), async_imports) if c3 == cls0), None)
+                                shrunk = det3 is not None
                         for cls, what, detail in fs:
                             d = {"args": vals, "ret": ret, "scenario": nm,
                                  "schedule": spec if kind == "import" else {"plan": o.get("plan"), "cancel_at": o.get("cancel_at")}, **detail}
                             if shrunk and cls == new[0][0]:
-                                d["args"], d["ret"], d["shrunk_from"] = svals, sret, {"args": vals, "ret": ret}
+                                d = {**d, **det3}
+                                d["args"], d["ret"], d["shrunk_from"] = svals, sret, {"args": vals, "ret": ret, "scenario": nm}
+                                d["scenario"] = snm
+                                d["schedule"] = sspec if kind == "import" else {"plan": list(sspec[0]), "cancel_at": sspec[1]}
                             d["minimal_wit"] = one_function_world(cases[k][1], ma["iface"].split("/")[-1], ma["name"])
                             violation(cls, what, k, ma, d)
                         # sync vs async ledger summaries (completed, otherwise clean runs only)
